@@ -67,7 +67,7 @@ func Profiles() map[string]*Profile {
 		Judge:     []string{"set", "setitem", "del", "get", "getitem", "exist", "min", "max", "totals", "audit", "open", "reopen"},
 		AuditMode: "get", MaxStores: 1, AllowMem: true, MemOnlyP: 0.3, MinOps: 10, MaxOps: 80, LongRunP: 0.03, LongOps: 1200,
 		MaxColls: 4, MaxKeys: 40, CBChoices: allCB, CustomCmp: true, BigValues: true, PrioModes: []int{0, 1, 2, 3, 4}})
-	add(&Profile{Name: "C02", Weights: mergeW(baseWeights(), map[string]float64{"faultyflush": 0.5, "write": 0.6, "flush": 4, "reopen": 2.5, "setcoll": 1, "rmcoll": 0.6, "audit": 0.5, "reopen2": 0.5}),
+	add(&Profile{Name: "C02", Weights: mergeW(baseWeights(), map[string]float64{"setcolls": 0.004, "faultyflush": 0.5, "write": 0.6, "flush": 4, "reopen": 2.5, "setcoll": 1, "rmcoll": 0.6, "audit": 0.5, "reopen2": 0.5}),
 		Judge:     []string{"flush", "open", "reopen", "audit"},
 		AuditMode: "visit", MaxStores: 1, MinOps: 10, MaxOps: 80, LongRunP: 0.03, LongOps: 800,
 		MaxColls: 4, MaxKeys: 30, CBChoices: allCB, CustomCmp: true, BigValues: true, CheckDecode: true, PrioModes: []int{0, 1, 2, 4}})
@@ -79,11 +79,11 @@ func Profiles() map[string]*Profile {
 		Judge:     []string{"visit", "iter", "audit"},
 		AuditMode: "visit", MaxStores: 1, AllowMem: true, MemOnlyP: 0.2, MinOps: 10, MaxOps: 80, LongRunP: 0.03, LongOps: 800,
 		MaxColls: 3, MaxKeys: 40, CBChoices: allCB, CustomCmp: true, PrioModes: []int{0, 0, 1, 2, 3, 4}})
-	add(&Profile{Name: "C08", Weights: mergeW(baseWeights(), map[string]float64{"flush": 5, "revert": 4, "reopen": 1, "setcoll": 0.5, "rmcoll": 0.3, "audit": 0.5, "get": 1, "getitem": 1, "exist": 0.5}),
+	add(&Profile{Name: "C08", Weights: mergeW(baseWeights(), map[string]float64{"setcolls": 0.004, "flush": 5, "revert": 4, "reopen": 1, "setcoll": 0.5, "rmcoll": 0.3, "audit": 0.5, "get": 1, "getitem": 1, "exist": 0.5}),
 		Judge:     []string{"revert", "flush", "open", "reopen", "audit"},
 		AuditMode: "visit", MaxStores: 1, AllowMem: true, MemOnlyP: 0.08, MinOps: 6, MaxOps: 60, LongRunP: 0.02, LongOps: 400,
 		MaxColls: 3, MaxKeys: 16, CBChoices: allCB, CustomCmp: true, AdvValues: true, CheckDecode: true, PrioModes: []int{0, 1, 4}})
-	add(&Profile{Name: "C09", Weights: mergeW(mergeW(baseWeights(), snapW), map[string]float64{"visit": 2, "iter": 1, "len": 0.5, "blockvisit": 0.3, "randvisit": 0.3, "write": 0.5, "revert": 0.8,
+	add(&Profile{Name: "C09", Weights: mergeW(mergeW(baseWeights(), snapW), map[string]float64{"setcolls": 0.004, "visit": 2, "iter": 1, "len": 0.5, "blockvisit": 0.3, "randvisit": 0.3, "write": 0.5, "revert": 0.8,
 		"copyto": 0.4, "setcoll": 0.3, "rmcoll": 0.3, "names": 0.3, "flush": 4, "reopen": 1.5, "close": 0.1, "faultyrevert": 0.5, "faultyflush": 0.4}),
 		Judge:     []string{"open", "reopen"},
 		AuditMode: "visit", MaxStores: 2, AllowMem: false, MinOps: 10, MaxOps: 80, LongRunP: 0.03, LongOps: 600,
@@ -95,7 +95,7 @@ func Profiles() map[string]*Profile {
 		Judge:     []string{"copyto"},
 		AuditMode: "visit", MaxStores: 1, AllowMem: true, MemOnlyP: 0.15, MinOps: 8, MaxOps: 60, LongRunP: 0.02, LongOps: 300,
 		MaxColls: 4, MaxKeys: 30, CBChoices: allCB, CustomCmp: true, BigValues: true, CheckWrites: true, PrioModes: []int{0, 1, 2, 4}})
-	add(&Profile{Name: "C12", Weights: mergeW(baseWeights(), map[string]float64{"setcoll": 4, "rmcoll": 2.5, "names": 2, "getcoll": 2, "flush": 2, "reopen": 1.5, "audit": 1.5, "snapshot": 0.5, "snapclose": 0.3, "visit": 1, "write": 0.8}),
+	add(&Profile{Name: "C12", Weights: mergeW(baseWeights(), map[string]float64{"setcolls": 0.004, "setcoll": 4, "rmcoll": 2.5, "names": 2, "getcoll": 2, "flush": 2, "reopen": 1.5, "audit": 1.5, "snapshot": 0.5, "snapclose": 0.3, "visit": 1, "write": 0.8}),
 		Judge:     []string{"setcoll", "rmcoll", "names", "getcoll", "audit", "open", "reopen"},
 		AuditMode: "visit", MaxStores: 1, AllowMem: true, MemOnlyP: 0.2, MinOps: 10, MaxOps: 70, LongRunP: 0.02, LongOps: 400,
 		MaxColls: 5, MaxKeys: 12, CBChoices: allCB, CustomCmp: true, Nested: true, PrioModes: []int{0, 1, 4}})
@@ -104,7 +104,7 @@ func Profiles() map[string]*Profile {
 		AuditMode: "visit", MaxStores: 1, AllowMem: true, MemOnlyP: 0.25, MinOps: 6, MaxOps: 50, LongRunP: 0.05, LongOps: 600,
 		MaxColls: 2, MaxKeys: 30, CBChoices: []int{0, 0, 0, CBAll}, CustomCmp: true, CheckTree: true, CheckDecode: true, CheckStruct: true,
 		PrioModes: []int{0, 0, 0, 1, 2, 3}, SmallSetsP: 0.6})
-	add(&Profile{Name: "C14", Weights: mergeW(baseWeights(), map[string]float64{"faultyflush": 0.6, "flush": 5, "copyto": 0.5, "setcoll": 0.6, "rmcoll": 0.4, "reopen": 1, "write": 0.3}),
+	add(&Profile{Name: "C14", Weights: mergeW(baseWeights(), map[string]float64{"setcolls": 0.004, "faultyflush": 0.6, "flush": 5, "copyto": 0.5, "setcoll": 0.6, "rmcoll": 0.4, "reopen": 1, "write": 0.3}),
 		Judge:     []string{"flush", "copyto", "open", "reopen"},
 		AuditMode: "visit", MaxStores: 1, MinOps: 8, MaxOps: 70, LongRunP: 0.03, LongOps: 600,
 		MaxColls: 5, MaxKeys: 30, CBChoices: allCB, CustomCmp: true, BigValues: true, CheckDecode: true, CheckStruct: true, PrioModes: []int{0, 1, 2, 3, 4}})
@@ -131,7 +131,7 @@ func Profiles() map[string]*Profile {
 		MaxColls: 3, MaxKeys: 24, CBChoices: []int{0}, CustomCmp: true, BigValues: true, CheckDecode: true, CheckStruct: true, PrioModes: []int{0, 1, 2, 4}})
 	add(&Profile{Name: "CON", Weights: baseWeights(), AuditMode: "visit", MaxStores: 1, CheckDecode: true})
 	// histories for the crash and fault enumerations
-	add(&Profile{Name: "C03", Weights: mergeW(baseWeights(), map[string]float64{"flush": 4, "reopen": 0.6, "setcoll": 0.6, "rmcoll": 0.4, "write": 0.4, "audit": 0.2, "get": 1, "getitem": 1, "exist": 0.3, "min": 0.2, "max": 0.2, "totals": 0.3, "revert": 0.3}),
+	add(&Profile{Name: "C03", Weights: mergeW(baseWeights(), map[string]float64{"setcolls": 0.004, "flush": 4, "reopen": 0.6, "setcoll": 0.6, "rmcoll": 0.4, "write": 0.4, "audit": 0.2, "get": 1, "getitem": 1, "exist": 0.3, "min": 0.2, "max": 0.2, "totals": 0.3, "revert": 0.3}),
 		Judge:     []string{"open", "reopen", "flush"},
 		AuditMode: "visit", MaxStores: 1, MinOps: 6, MaxOps: 40, LongRunP: 0.02, LongOps: 150,
 		MaxColls: 3, MaxKeys: 14, CBChoices: []int{0, 0, 0, CBValWrite | CBValLength, CBAll}, CustomCmp: true, AdvValues: true, CheckDecode: true, PrioModes: []int{0, 1, 4}})
@@ -169,6 +169,7 @@ type Gen struct {
 	started   bool
 	queue     []Op
 	emitted   int
+	bulkDone  bool
 }
 
 var collNamePool = []string{"", "a", "ab", "abc", "b", "users", "users.email", "x\"y", "back\\slash", "<&>", " sep", "ctl\x01\x1f", "üñí", "日本", "z"}
@@ -808,6 +809,28 @@ func (g *Gen) build(kind string) (Op, bool) {
 				op.N2 = 1 // pass a nil comparator
 			}
 			return op, true
+		}
+	case "setcolls":
+		// once per history: enough long-named collections for a root record
+		// of 62-70 KiB (or twice that)
+		if !g.bulkDone {
+			for _, h := range g.permuted(g.writable()) {
+				if h.Disk >= 0 {
+					g.bulkDone = true
+					l := r.Range(150, 260)
+					n := r.Range(62000, 70000) / (l + 41)
+					if r.Bool(0.2) {
+						n *= 2
+					}
+					g.queue = append(g.queue, Op{Kind: "flush", S: h.ID})
+					// every later audit / flush / re-open walks all of them:
+					// keep the rest of such a history short
+					if g.nOps > g.emitted+8 {
+						g.nOps = g.emitted + 8
+					}
+					return Op{Kind: "setcolls", S: h.ID, N: n, N2: l}, true
+				}
+			}
 		}
 	case "rmcoll":
 		hs := g.writable()
